@@ -137,6 +137,14 @@ def _pair(p):
         u = _haar(rng, d, cplx)
         a = _from_basis(u, _spectrum(rng, r1), list(range(r1)))
         b = _from_basis(u, _spectrum(rng, r2), list(range(d - r2, d)))
+    elif kind == "int-projector":
+        # a basis projector typed in with integer entries (int64) against a complex full-rank state: two numpy dtypes in one call
+        a = np.zeros((d, d), dtype=np.int64)
+        a[0, 0] = 1
+        b = _fullrank(rng, d, True)
+        if p.get("swap"):
+            a, b = b, a
+        r1, r2 = (d, 1) if p.get("swap") else (1, d)
     elif kind == "near":
         a = _dm(rng, d, r1, cplx)
         eps = p.get("eps", 1e-3)
@@ -915,6 +923,14 @@ def cases(tier, seed):
         add("matsumoto_fidelity.def", prm2, "matsumoto_fidelity/fullrank-pair/%s" % fld)
         add("matsumoto_fidelity.le_F", prm2, "matsumoto_fidelity/fullrank-pair/%s" % fld)
         add("trace_distance.triangle", dict(d=d, kind="mixed", field=fld, seed=s), "trace_distance/mixed-triple/%s" % fld)
+    # ---- an integer-typed projector against a complex state (mixed numpy dtypes in one call)
+    for fn in PAIR_FUNCS:
+        if fn == "matsumoto_fidelity":
+            continue
+        for d in (2, 3):
+            for sw in (False, True):
+                add(fn + ".def", dict(d=d, kind="int-projector", field="complex", swap=sw, seed=seed + d), "%s/int-projector-vs-complex/complex" % fn)
+                add(fn + ".symmetric", dict(d=d, kind="int-projector", field="complex", swap=sw, seed=seed + d), "%s/int-projector-vs-complex/complex" % fn)
     # ---- the SDP branch taken for cvxpy operands (non-commuting full-rank pairs, real and complex)
     for fn in ("fidelity", "matsumoto_fidelity"):
         for d in (2, 3) if not thorough else (2, 3, 4):
